@@ -77,6 +77,35 @@ Proof.
   rewrite total_sum_axis by exact Hax. ring.
 Qed.
 
+(* iterating over ANY sequence of axes (each index refers to the shape left over at that step) never
+   changes the total: integrating direction by direction in any order gives the same number *)
+Fixpoint reduce_axes (axs : list nat) (sh : list nat) (f : idx -> K) : list nat * (idx -> K) :=
+  match axs with
+  | [] => (sh, f)
+  | a :: rest => reduce_axes rest (remove_nth a sh) (sum_axis K sh a f)
+  end.
+
+Fixpoint axes_valid (axs : list nat) (len : nat) : Prop :=
+  match axs with
+  | [] => True
+  | a :: rest => (a < len)%nat /\ axes_valid rest (len - 1)
+  end.
+
+Lemma remove_nth_length {A} (a : nat) (l : list A) : (a < length l)%nat ->
+  length (remove_nth a l) = (length l - 1)%nat.
+Proof.
+  revert a. induction l as [|x l IH]; intros [|a] H; simpl in *; try lia.
+  rewrite IH by lia. destruct l; simpl in *; lia.
+Qed.
+
+Theorem total_reduce_axes axs : forall sh (f : idx -> K), axes_valid axs (length sh) ->
+  total K (fst (reduce_axes axs sh f)) (snd (reduce_axes axs sh f)) = total K sh f.
+Proof.
+  induction axs as [|a rest IH]; intros sh f Hv; simpl; [reflexivity|].
+  destruct Hv as [Ha Hr]. rewrite IH by (rewrite remove_nth_length by exact Ha; exact Hr).
+  apply total_sum_axis. exact Ha.
+Qed.
+
 (* ---- linearity ---- *)
 Theorem total_lin sh a b (f g : idx -> K) :
   total K sh (fun i => a * f i + b * g i) = a * total K sh f + b * total K sh g.
